@@ -2,8 +2,9 @@ from ._seqcommon import seq_spec
 
 SPEC = seq_spec(
     'C02',
-    'Lean 4 theorems over every accepted event sequence (any schedule of submitters, sequencer steps, faults, crashes): every acknowledgement names an index of a checkpoint whose upload had taken effect, holding that entry with that timestamp (C02_ack_published), and this stays true in every later committed/published checkpoint (C02_ack_stable); a round acknowledges only after its checkpoint upload succeeded; the cache only holds published leaves. The acceptor additionally checks, at every ack of the real code, that the published tree it rendered holds the entry at that index. Oracle: storage snapshot at the ack instant, parsed independently.',
+    'Lean 4 theorems over every accepted event sequence (any schedule of submitters, sequencer steps, faults, crashes): every acknowledgement names an index of a checkpoint whose upload had taken effect, holding that entry with that timestamp (C02_ack_published), and this stays true in every later committed/published checkpoint (C02_ack_stable); a round acknowledges only after its checkpoint upload succeeded; the cache only holds published leaves. The acceptor additionally checks, at every ack of the real code, that the published tree it rendered holds the entry at that index. Oracle: storage snapshot at the ack instant, parsed independently. HTTP layer (engine submit): every 200 answer of the real add-chain/add-pre-chain handlers carries an SCT whose index holds that entry in the published tree and whose signature verifies under the log key with crypto/ecdsa and ct-go over a MerkleTreeLeaf rebuilt from the submitted chain by an independent derivation.',
     "Trusted: Lean kernel, standard axioms, extractor, harness stores/scheduler, Lean SHA-256 rendering. Assumes the Backend/LockBackend contracts, collision resistance, unforgeability.",
     "invariants by induction over all accepted event sequences (Lean 4) + regenerated effect-skeleton tie + trace acceptance of the real code with byte-exact rendering",
+    extra_engines=[{"engine": "submit", "timeout": 900, "quick": {"cases": 16}, "thorough": {"cases": 200}}],
     required=['C02_ack_published', 'C02_ack_stable', 'C02_ack_after_publish', 'C02_cache_published'],
 )
